@@ -28,7 +28,10 @@ RULE = ("pairs (t, t') of seeded expression trees (depth <= 3 quick, <= 5 thorou
         "(affine units included), identical quantities, empty quantities, captions, quantities written directly "
         "as dicts (zero totals, two units of one type), and a minority of dimension-incompatible pairs "
         "(both sides must report `units`); distinct = distinct (op, operand quantities, exact values); "
-        "non-trivial = the operation succeeded on two different quantities")
+        "non-trivial = the operation succeeded on two different quantities; "
+        "Array leg: a quarter of the operand pairs is also evaluated with Arrays (float64 ndarray / list / tuple, 2-3 "
+        "elements, element i of a leaf = value * multiplier i) on ONE pair of operand objects reused for a+b, b+a, "
+        "(a+b)-b, a-b; every element of every step is a case")
 EXHAUSTIVE = {"quick": False, "thorough": False}
 ASSUMPTIONS = ["float results stay within K*eps*M (K=64) of the exact model: checked on every run, not proved",
                "the default singleton holds the POSC database that the translator rebuilds (same fill function)"]
